@@ -55,7 +55,10 @@ Init ==
   /\ TLCSet(1, <<>>)
 
 Rec(op) == hist' = Append(hist, op)
-Step(op, cls, p) == last' = [op |-> op, cls |-> cls, p |-> p]
+\* only compiles are remembered (the classification invariants read them);
+\* everything else collapses, which keeps `last` cheap in the VIEW
+Step(op, cls, p) == last' = IF op = "compile" THEN [op |-> op, cls |-> cls, p |-> p]
+                                              ELSE [op |-> "other", cls |-> "-", p |-> 0]
 
 New(p, shape) ==
   /\ ~prog[p].live
@@ -227,7 +230,7 @@ JitHasMemory ==
   /\ \A c \in Codes : (tcode[c].live /\ tcode[c].exec = "jit") => tcode[c].chunk
 
 -----------------------------------------------------------------------------
-View == <<mode, prog, tcode, heap, bad>>
+View == <<mode, prog, tcode, heap, bad, last>>   \* everything an invariant reads
 Bounded == MaxHist = 0 \/ Len(hist) < MaxHist
 \* behaviour output: one stdout line per generated transition (model checking,
 \* ACTION_CONSTRAINT RecEdge) or per simulated behaviour (INVARIANT SimDump)
